@@ -1117,11 +1117,51 @@ def corr_orth(R, tn, rng, th):
     return bad + cbad
 
 
+class TruncSpy:
+    """while truncate runs (inside a Rec): snapshots of the cores produced by the rounding sweep, taken when they are
+    created (the 3-dimensional results of teneva._reshape after orthogonalize has returned: cores d-1 .. 1, and the
+    last np.einsum result: core 0), i.e. the tensor BEFORE the final in-place rescaling"""
+
+    def __init__(self, tn, rec):
+        self.tn, self.rec, self.cores, self.first = tn, rec, [], None
+
+    def armed(self):
+        return len(self.rec.orth_out) >= 1
+
+    def __enter__(self):
+        tn, T, spy = self.tn, self.tn.transformation, self
+        self.o_resh, self.o_np = tn._reshape, T.np
+
+        def resh(A, n, *a, **k):
+            r = spy.o_resh(A, n, *a, **k)
+            if spy.armed() and getattr(r, 'ndim', 0) == 3:
+                spy.cores.append(np.array(r, copy=True))
+            return r
+
+        class NP:
+            def __getattr__(self_, name):
+                return getattr(spy.o_np, name)
+
+            def einsum(self_, *a, **k):
+                r = spy.o_np.einsum(*a, **k)
+                if spy.armed():
+                    spy.first = np.array(r, copy=True)
+                return r
+        tn._reshape, T.np = resh, NP()
+        return self
+
+    def __exit__(self, *a):
+        self.tn._reshape, self.tn.transformation.np = self.o_resh, self.o_np
+
+    def pre(self):
+        return ([self.first] if self.first is not None else []) + list(reversed(self.cores))
+
+
 def corr_truncate(R, tn, rng, th):
     """truncate(Y, e, use_stab=True): (1) its orthogonalize(Y, d-1, True) call is replayed on the dyadic model as in the
-    orth_stab stream; (2) the rounding sweep is re-run by the implementation on the recorded (Z, p) without the final
-    rescaling (orth=False, the same absolute threshold), and the model's rescale_all at the PrimFloat instance with
-    c = 2**(p/d) must reproduce the returned cores bit for bit.  The root contract c^d = 2^p is validated."""
+    orth_stab stream; (2) the cores of the rounding sweep are snapshotted when they are created (TruncSpy), and the
+    model's rescale_all at the PrimFloat instance with c = 2**(p/d) applied to them must reproduce the returned cores
+    bit for bit.  The root contract c^d = 2^p is validated."""
     plan = []
     for d in ([2, 3, 5, 9, 30] + ([120] if th else [])):
         for mode in ['up', 'down', 'mixed']:
@@ -1133,7 +1173,7 @@ def corr_truncate(R, tn, rng, th):
     for d, mode, e, is_eigh in plan:
         Y = gen_any(rng, d, mode, rmax=3 if d <= 9 else 2)
         inp = ['truncate', tt_desc(Y), e, is_eigh]
-        with Rec(tn) as rec:
+        with Rec(tn) as rec, TruncSpy(tn, rec) as spy:
             try:
                 with np.errstate(all='ignore'):
                     W = tn.truncate(tt_np(Y), e, use_stab=True, is_eigh=is_eigh)
@@ -1151,9 +1191,10 @@ def corr_truncate(R, tn, rng, th):
                                         f'truncate(use_stab=True) called orthogonalize(.., True) {len(rec.orth_out)} times')))
             continue
         Zs, p = rec.orth_out[0]
-        with np.errstate(all='ignore'):
-            e1 = e / np.sqrt(d - 1) * np.linalg.norm(Zs[-1])
-            W0 = tn.truncate([G.copy() for G in Zs], e1, orth=False, use_stab=False, is_eigh=is_eigh)
+        W0 = spy.pre()
+        if len(W0) != d:
+            bad.append(dict(stream='truncate_stab', input=inp, why=f'the rounding sweep produced {len(W0)} cores for d = {d}'))
+            continue
         c = 2 ** (p / d)
         root_err = abs(d * math.log2(c) - p)
         dist['root_worst'] = max(dist['root_worst'], root_err)
